@@ -991,9 +991,11 @@ impl Arena {
     let allocated = header.allocated;
     let align_offset = align_offset::<T>(allocated);
     let size = t_size as u32;
-    let want = align_offset + size;
 
-    if want <= self.cap {
+    if let Some(want) = align_offset
+      .checked_add(size)
+      .filter(|want| *want <= self.cap)
+    {
       let offset = header.allocated;
       header.allocated = want;
       let mut allocated = Meta::new(self.ptr as _, offset, want - offset);
@@ -1013,7 +1015,7 @@ impl Arena {
     // allocate through slow path
     match self.freelist {
       Freelist::None => Err(Error::InsufficientSpace {
-        requested: want,
+        requested: size,
         available: self.remaining() as u32,
       }),
       Freelist::Optimistic => match self.alloc_slow_path_optimistic(Self::pad::<T>() as u32) {
